@@ -738,25 +738,42 @@ fn typ(t: &ETree) -> Result<(World, usize), String> {
 fn buildable(t: &ETree) -> bool { matches!(typ(t), Ok((w, _)) if w != World::I) }
 
 // ------------------------------------------------------------------------------------------- stream / format adapters
-type Seen = Rc<RefCell<Vec<(u32, Rec)>>>;
-/// terminals numbered 256 and up fail (after recording) with their number
-fn term_result(id: u32) -> Result<(), IoStreamError> {
-    if id >= 256 { Err(IoStreamError::Validation(ValidationError::invalid(format!("t{id}")))) } else { Ok(()) }
+/// (index of the entry in the sequence, terminal, what it was handed)
+type Seen = Rc<RefCell<Vec<(usize, u32, Rec)>>>;
+thread_local! {
+    /// (terminal, index of its call, kind 0 = Validation / 1 = Io): when a terminal fails
+    static FAILS: RefCell<Vec<(u32, usize, u8)>> = RefCell::new(vec![]);
+    static CUR_ENTRY: std::cell::Cell<usize> = std::cell::Cell::new(0);
+    static RESULTS: RefCell<Vec<Option<(u32, u8)>>> = RefCell::new(vec![]);
 }
-thread_local! { static LAST_RESULT: RefCell<Option<u32>> = RefCell::new(None); }
+/// terminals numbered 256 and up always fail (after recording) with their number; the others when FAILS says so
+fn term_result(id: u32, call: usize) -> Result<(), IoStreamError> {
+    if id >= 256 { return Err(IoStreamError::Validation(ValidationError::invalid(format!("t{id}")))); }
+    match FAILS.with(|f| f.borrow().iter().find(|x| x.0 == id && x.1 == call).map(|x| x.2)) {
+        None => Ok(()),
+        Some(0) => Err(IoStreamError::Validation(ValidationError::invalid(format!("t{id}")))),
+        Some(_) => Err(IoStreamError::Io(std::io::Error::new(std::io::ErrorKind::Other, format!("i{id}")))),
+    }
+}
 /// terminal EntryIoStream
-struct RecS { id: u32, seen: Seen }
+struct RecS { id: u32, seen: Seen, calls: usize }
 impl EntryIoStream for RecS {
-    fn next(&mut self, entry: &impl Entry) -> Result<(), IoStreamError> { let r = record(entry); self.seen.borrow_mut().push((self.id, r)); term_result(self.id) }
+    fn next(&mut self, entry: &impl Entry) -> Result<(), IoStreamError> {
+        let r = record(entry); self.seen.borrow_mut().push((CUR_ENTRY.with(|c| c.get()), self.id, r));
+        self.calls += 1; term_result(self.id, self.calls - 1)
+    }
     fn flush(&mut self) -> std::io::Result<()> { Ok(()) }
 }
 /// terminal Format
-struct RecF { id: u32, seen: Seen }
+struct RecF { id: u32, seen: Seen, calls: usize }
 impl Format for RecF {
     fn format(&mut self, entry: &impl Entry, _output: &mut impl std::io::Write) -> Result<(), IoStreamError> {
-        let r = record(entry); self.seen.borrow_mut().push((self.id, r)); term_result(self.id)
+        let r = record(entry); self.seen.borrow_mut().push((CUR_ENTRY.with(|c| c.get()), self.id, r));
+        self.calls += 1; term_result(self.id, self.calls - 1)
     }
 }
+/// the entries fed to an adapter chain: one of two concrete types
+enum AnyE { Plain(SE<PV>), Boxed(BoxEntry) }
 #[derive(Clone, Debug)]
 enum SW { Globals(ETree), GDims(Dims, Vec<String>), Force(Flag), Tee(u32), OutputTo }
 enum Globals { Plain(SE<PV>), Boxed(BoxEntry) }
@@ -774,28 +791,36 @@ fn deny_set(deny: &[String]) -> Option<HashSet<Cow<'static, str>>> {
     if deny.is_empty() { None } else { Some(deny.iter().cloned().map(Cow::Owned).collect()) }
 }
 trait SDepth {
-    fn st<S: EntryIoStream, E: Entry>(s: S, ws: &[SW], seen: &Seen, e: &E);
-    fn fm<S: Format, E: Entry>(s: S, ws: &[SW], seen: &Seen, e: &E);
+    fn st<S: EntryIoStream>(s: S, ws: &[SW], seen: &Seen, e: &[AnyE]);
+    fn fm<S: Format>(s: S, ws: &[SW], seen: &Seen, e: &[AnyE]);
 }
 struct SZ;
 struct SS<D>(PhantomData<D>);
 type STop = SS<SS<SZ>>;
 const SDEPTH: usize = 2;
-fn feed<S: EntryIoStream, E: Entry>(mut s: S, e: &E) {
-    let r = catch(|| { let r = s.next(e); let _ = s.flush(); r });
-    let code = match r {
-        Some(Ok(())) => None,
-        Some(Err(err)) => Some(err.to_string().trim_start_matches('t').parse::<u32>().unwrap_or(0xeeee)),
-        None => Some(0xffff),
-    };
-    LAST_RESULT.with(|l| *l.borrow_mut() = code);
+/// feeds the whole sequence through this ONE adapter instance
+fn feed<S: EntryIoStream>(mut s: S, es: &[AnyE]) {
+    for (i, e) in es.iter().enumerate() {
+        CUR_ENTRY.with(|c| c.set(i));
+        let r = catch(|| { let r = match e { AnyE::Plain(e) => s.next(e), AnyE::Boxed(e) => s.next(e) }; let _ = s.flush(); r });
+        let code = match r {
+            Some(Ok(())) => None,
+            Some(Err(err)) => {
+                let t = err.to_string();
+                let kind = if matches!(err, IoStreamError::Io(_)) { 1 } else { 0 };
+                Some((t[1.min(t.len())..].parse::<u32>().unwrap_or(0xeeee), if t.starts_with(if kind == 1 { 'i' } else { 't' }) { kind } else { 9 }))
+            }
+            None => Some((0xffff, 9)),
+        };
+        RESULTS.with(|l| l.borrow_mut().push(code));
+    }
 }
 impl SDepth for SZ {
-    fn st<S: EntryIoStream, E: Entry>(s: S, ws: &[SW], _seen: &Seen, e: &E) { assert!(ws.is_empty(), "harness: stream chain too deep"); feed(s, e) }
-    fn fm<S: Format, E: Entry>(_s: S, _ws: &[SW], _seen: &Seen, _e: &E) { panic!("harness: a format chain must end in output_to") }
+    fn st<S: EntryIoStream>(s: S, ws: &[SW], _seen: &Seen, e: &[AnyE]) { assert!(ws.is_empty(), "harness: stream chain too deep"); feed(s, e) }
+    fn fm<S: Format>(_s: S, _ws: &[SW], _seen: &Seen, _e: &[AnyE]) { panic!("harness: a format chain must end in output_to") }
 }
 impl<D: SDepth> SDepth for SS<D> {
-    fn st<S: EntryIoStream, E: Entry>(s: S, ws: &[SW], seen: &Seen, e: &E) {
+    fn st<S: EntryIoStream>(s: S, ws: &[SW], seen: &Seen, e: &[AnyE]) {
         let Some((x, rest)) = ws.split_first() else { return feed(s, e) };
         match x {
             SW::Globals(g) => match globals(g) {
@@ -807,11 +832,11 @@ impl<D: SDepth> SDepth for SS<D> {
             SW::Force(Flag::Emf(_)) => D::st(ForceFlag::<S, NoMetricCtor>::from(s), rest, seen, e),
             SW::Force(Flag::User(_)) => D::st(ForceFlag::<S, UserCtor<2>>::from(s), rest, seen, e),
             SW::Force(Flag::Opaque(_)) => D::st(ForceFlag::<S, TestFlagCtor>::from(s), rest, seen, e),
-            SW::Tee(id) => D::st(s.tee(RecS { id: *id, seen: seen.clone() }), rest, seen, e),
+            SW::Tee(id) => D::st(s.tee(RecS { id: *id, seen: seen.clone(), calls: 0 }), rest, seen, e),
             SW::OutputTo => panic!("harness: output_to applied to a stream"),
         }
     }
-    fn fm<S: Format, E: Entry>(s: S, ws: &[SW], seen: &Seen, e: &E) {
+    fn fm<S: Format>(s: S, ws: &[SW], seen: &Seen, e: &[AnyE]) {
         let Some((x, rest)) = ws.split_first() else { panic!("harness: a format chain must end in output_to") };
         match x {
             SW::Globals(g) => match globals(g) {
@@ -840,23 +865,25 @@ fn flatten_s(s: &STree) -> (u32, bool, Vec<SW>) {
         }
     }
 }
-fn run_stream(s: &STree, e: &ETree) -> Vec<(u32, Rec)> {
+/// One adapter instance, the whole sequence of entries; returns the per-entry results and everything the terminals saw.
+fn run_stream(s: &STree, entries: &[ETree], fails: &[(u32, usize, u8)]) -> (Vec<Option<(u32, u8)>>, Vec<(usize, u32, Rec)>) {
     let seen: Seen = Rc::new(RefCell::new(vec![]));
     let (id, is_format, ws) = flatten_s(s);
-    let go = |entry: &dyn Fn(&Seen)| entry(&seen);
-    match e {
-        ETree::Plain(items, g) if !is_rich(items) => {
-            let en = mk_plain(items, g);
-            go(&|seen| if is_format { STop::fm(RecF { id, seen: seen.clone() }, &ws, seen, &en) } else { STop::st(RecS { id, seen: seen.clone() }, &ws, seen, &en) });
-        }
-        ETree::Boxed(x) => {
-            let en = build(x, ToBox);
-            go(&|seen| if is_format { STop::fm(RecF { id, seen: seen.clone() }, &ws, seen, &en) } else { STop::st(RecS { id, seen: seen.clone() }, &ws, seen, &en) });
-        }
-        other => panic!("harness: a stream case needs a plain script or a BoxEntry, got {:?}", other),
-    }
+    let es: Vec<AnyE> = entries.iter().map(|e| match e {
+        ETree::Plain(items, g) if !is_rich(items) => AnyE::Plain(mk_plain(items, g)),
+        ETree::Boxed(x) => AnyE::Boxed(build(x, ToBox)),
+        other => panic!("harness: a stream case needs plain scripts or BoxEntries, got {:?}", other),
+    }).collect();
+    FAILS.with(|f| *f.borrow_mut() = fails.to_vec());
+    RESULTS.with(|r| r.borrow_mut().clear());
+    if is_format { STop::fm(RecF { id, seen: seen.clone(), calls: 0 }, &ws, &seen, &es) } else { STop::st(RecS { id, seen: seen.clone(), calls: 0 }, &ws, &seen, &es) }
+    FAILS.with(|f| f.borrow_mut().clear());
+    drop(es);
     let v = seen.borrow().clone();
-    v
+    (RESULTS.with(|r| std::mem::take(&mut *r.borrow_mut())), v)
+}
+fn enc_deliveries(seen: &[(usize, u32, Rec)], i: usize) -> Sx {
+    Sx::L(seen.iter().filter(|x| x.0 == i).map(|(_, id, r)| Sx::L(vec![sx::n(*id), enc_rec(r)])).collect())
 }
 
 // ------------------------------------------------------------------------------------------- executing a case
@@ -876,13 +903,24 @@ pub fn exec(case: &Sx) -> (Sx, bool) {
             let nt = count_wrappers(&t) >= 1 && !rec.items.is_empty();
             (enc_rec(&rec), nt)
         }
-        _ => {
+        1 => {
             let s = dec_stree(case.arg(0));
             let t = dec_etree(case.arg(1));
-            let seen = run_stream(&s, &t);
-            let nt = seen.iter().any(|(_, r)| !r.items.is_empty());
-            let res = LAST_RESULT.with(|l| l.borrow_mut().take());
-            (Sx::L(vec![sx::opt(res.map(sx::n)), Sx::L(seen.iter().map(|(id, r)| Sx::L(vec![sx::n(*id), enc_rec(r)])).collect())]), nt)
+            let (res, seen) = run_stream(&s, &[t], &[]);
+            let nt = seen.iter().any(|x| !x.2.items.is_empty());
+            (Sx::L(vec![sx::opt(res.first().cloned().flatten().map(|r| sx::n(r.0))), enc_deliveries(&seen, 0)]), nt)
+        }
+        _ => {
+            let s = dec_stree(case.arg(0));
+            let ts: Vec<ETree> = case.arg(1).list().iter().map(dec_etree).collect();
+            let fails: Vec<(u32, usize, u8)> = case.arg(2).list().iter().map(|f| (f.list()[0].num() as u32, f.list()[1].num() as usize, f.list()[2].num() as u8)).collect();
+            let (res, seen) = run_stream(&s, &ts, &fails);
+            let failed = res.iter().position(|r| r.is_some());
+            // non-trivial: an entry with something to write comes AFTER a failed one
+            let nt = failed.map(|k| seen.iter().any(|x| x.0 > k && !x.2.items.is_empty())).unwrap_or(false);
+            (Sx::L((0..ts.len()).map(|i| Sx::L(vec![
+                sx::opt(res.get(i).cloned().flatten().map(|r| Sx::L(vec![sx::n(r.0), sx::n(r.1)]))),
+                enc_deliveries(&seen, i)])).collect()), nt)
         }
     });
     free_leaks();
@@ -1123,6 +1161,22 @@ fn emit_stream(out: &mut Out, s: &STree, t: &ETree, kind: &str) {
     emit(out, sx::tag(1, vec![enc_stree(s), enc_etree(t)]));
 }
 
+fn emit_seq(out: &mut Out, s: &STree, ts: &[ETree], fails: &[(u32, usize, u8)], kind: &str) {
+    out.count(kind);
+    out.count(&format!("sequence_len_{}", ts.len()));
+    for f in fails { out.count(if f.2 == 0 { "sequence_terminal_fails_validation" } else { "sequence_terminal_fails_io" }); }
+    if fails.is_empty() { out.count("sequence_without_failure"); }
+    emit(out, sx::tag(2, vec![enc_stree(s), Sx::L(ts.iter().map(enc_etree).collect()),
+        Sx::L(fails.iter().map(|f| Sx::L(vec![sx::n(f.0), sx::n(f.1 as u64), sx::n(f.2)])).collect())]));
+}
+fn stream_terminals(s: &STree, out: &mut Vec<u32>) {
+    match s {
+        STree::Term(id) => out.push(*id),
+        STree::MergeGlobals(s, _) | STree::MergeGDims(s, _, _) | STree::Force(s, _) | STree::OutputTo(s) => stream_terminals(s, out),
+        STree::Tee(a, b) => { stream_terminals(a, out); stream_terminals(b, out); }
+    }
+}
+
 pub fn run(ctx: &Ctx) {
     if std::env::var("C15_LOUD").is_err() { crate::common::quiet_panics(); }
     let mut out = Out::new(ctx, "");
@@ -1220,6 +1274,27 @@ pub fn run(ctx: &Ctx) {
         sequences(&STree::Term(0), &smenu, SDEPTH, &|s| s_ok(s, false, 0), &mut all);
         let entries = [rep_plain(), ETree::Boxed(Box::new(ETree::Force(Box::new(rep_plain()), Flag::Emf(0))))];
         for s in &all { for e in &entries { emit_stream(&mut out, s, e, "exhaustive_stream_chains"); } }
+        // the same chains as ONE instance fed a sequence of entries, a terminal failing at every position with both
+        // error kinds: what the terminals are handed before and after the failure
+        let e2 = ETree::Plain(vec![
+            SItem::Val("WithDim".into(), VTree::Plain(rep_metric(None)), 0), SItem::Val("az".into(), VTree::Plain(VCall::Str("eu".into())), 1),
+            SItem::Val("Other".into(), VTree::Plain(rep_metric(Some(Flag::Emf(1)))), 2)], vec![("Operation".into(), "Bar".into())]);
+        let pool = [rep_plain(), e2, entries[1].clone(), rep_plain()];
+        let lens: &[usize] = if thorough { &[2, 3, 4, 6] } else { &[2, 3] };
+        for s in &all {
+            let mut terms = vec![]; stream_terminals(s, &mut terms);
+            terms.retain(|t| *t < 256);
+            for &n in lens {
+                let seq: Vec<ETree> = (0..n).map(|i| pool[(i + n) % pool.len()].clone()).collect();
+                emit_seq(&mut out, s, &seq, &[], "exhaustive_adapter_sequences");
+                for t in &terms {
+                    for k in 0..n.min(if thorough { 6 } else { 3 }) {
+                        if n > 2 && k == n - 1 && !thorough { continue; } // a failure on the last entry shows nothing new
+                        for kind in 0..2u8 { emit_seq(&mut out, s, &seq, &[(*t, k, kind)], "exhaustive_adapter_sequences"); }
+                    }
+                }
+            }
+        }
     }
     // (d) random trees
     let mut rng = Rng::new(ctx.seed);
@@ -1236,6 +1311,12 @@ pub fn run(ctx: &Ctx) {
         let s = g_stream(&mut rng, family);
         let e = if rng.chance(1, 2) { g_plain(&mut rng, family, false, false) } else { g_boxed(&mut rng, family, false, 3) };
         emit_stream(&mut out, &s, &e, "random_stream_chains");
+        // ... and as one instance fed 2-6 random entries with random terminal failures
+        let n = rng.range(2, 6) as usize;
+        let seq: Vec<ETree> = (0..n).map(|_| if rng.chance(2, 3) { g_plain(&mut rng, family, false, false) } else { g_boxed(&mut rng, family, false, 2) }).collect();
+        let mut terms = vec![]; stream_terminals(&s, &mut terms);
+        let fails: Vec<(u32, usize, u8)> = (0..rng.range(0, 3)).map(|_| (*rng.pick(&terms), rng.below(n as u64) as usize, rng.below(2) as u8)).collect();
+        emit_seq(&mut out, &s, &seq, &fails, "random_adapter_sequences");
     }
-    out.finish("entry cases: a wrapped entry tree written into a recording EntryWriter/ValueWriter, its sample_group collected; stream cases: what every terminal stream/format was handed. Exhaustive: every buildable chain of entry wrappers (static types, <= 2 between erasure points) up to the tier's length over representative bases, every chain of value wrappers, every (flag, forced flag, forced flag) triple, every chain of stream/format adapters; plus random trees. Non-trivial = at least one wrapper and at least one recorded item; distinct by hash of the case");
+    out.finish("entry cases: a wrapped entry tree written into a recording EntryWriter/ValueWriter, its sample_group collected; stream cases: what every terminal stream/format was handed, for one entry and for sequences of 2-6 entries through ONE adapter instance with terminals failing (validation / io) at chosen positions. Exhaustive: every buildable chain of entry wrappers (static types, <= 2 between erasure points) up to the tier's length over representative bases, every chain of value wrappers, every (flag, forced flag, forced flag) triple, every chain of stream/format adapters; plus random trees. Non-trivial = at least one wrapper and at least one recorded item; distinct by hash of the case");
 }
